@@ -10,6 +10,7 @@ class P(vlib.Prop):
             "result with the repository's writeTar and read it back with archive/tar. A case is non-trivial when something is configured; distinct = distinct case terms.")
     stages = (
         dict(name="accounts", cmd="c13", args=lambda t, s: ["-stage", "accounts"]),
+        dict(name="paths", cmd="c13", args=lambda t, s: ["-stage", "paths"]),
     )
     assumptions = (
         "path strings are modelled by their non-empty '/'-separated components plus 'absolute' and 'trailing slash' flags; creating a directory entry literally named '.', '..' or '/' is outside the model (the generators never do it)",
